@@ -55,8 +55,9 @@ VARIABLES
   ab,    \* ghost: ArcSwapAbs state
   err,   \* "" or the first violated clause
   solo,  \* 0, or the only thread allowed to run (C09)
+  sc,    \* steps taken by the solo thread since everybody else was frozen (saturating at SoloK + 1)
   hist   \* schedule history (see Hist)
-vars == <<sh, th, hp, ab, err, solo, hist>>
+vars == <<sh, th, hp, ab, err, solo, sc, hist>>
 
 (* ---------------------------------------------------------------------- *)
 Guard(a, n, i) == [a |-> a, n |-> n, i |-> i]      \* i = 0: owns a count; i in Slots: fast slot; i = -1: helping slot
@@ -88,7 +89,7 @@ Init ==
               !.cell = [c \in Conts |-> c], !.known = Conts, !.cnt = [o \in Conts |-> 1],
               !.parent = [o \in Conts |-> -1], !.ever = [c \in Conts |-> {c}] ]
   /\ err = ""
-  /\ solo = 0
+  /\ solo = 0 /\ sc = 0
   /\ hist = <<>>
 
 L(t)  == th[t]
@@ -253,7 +254,8 @@ N_cool(t) ==   \* list.rs:129 in_use.load(Acquire)
   /\ NoEmit /\ UNCHANGED <<sh, hp>>
 N_wr(t) ==     \* list.rs:133 active_writers.load(Relaxed)
   /\ PC(t) = "N_wr"
-  /\ Set(t, [L(t) EXCEPT !.pc = IF sh.wr[L(t).scan] = 0 THEN "N_uncool" ELSE "N_claim"])
+  \* (seeded model bug "cooldown_wait" = seeded change e09: `while` instead of `if` - wait until the writers have left)
+  /\ Set(t, [L(t) EXCEPT !.pc = IF sh.wr[L(t).scan] = 0 THEN "N_uncool" ELSE IF Bug = "cooldown_wait" THEN "N_cool" ELSE "N_claim"])
   /\ NoEmit /\ UNCHANGED <<sh, hp>>
 N_uncool(t) == \* list.rs:134 compare_exchange(COOLDOWN, UNUSED)
   /\ PC(t) = "N_uncool"
@@ -707,15 +709,18 @@ Step(t) ==
 
 InOp(t) == PC(t) \notin {"idle", "dead"}
 
-Freeze(t) == /\ SoloOn /\ solo = 0 /\ InOp(t) /\ solo' = t /\ UNCHANGED <<sh, th, hp, ab, err, hist>>
+Freeze(t) == /\ SoloOn /\ solo = 0 /\ InOp(t) /\ solo' = t /\ sc' = 0 /\ UNCHANGED <<sh, th, hp, ab, err, hist>>
 
 \* what thread t is about to do, with the operands that identify the access (for tools/cover.py)
 Entry(t) == LET r == th[t] IN
   <<t, r.pc, r.node, r.m, r.c, r.slot, IF r.ps = <<>> THEN 0 ELSE Head(r.ps), r.r.i, r.r.n, r.scan, r.kind, Len(r.wl), IF r.ip <= Len(Prog[t]) THEN Prog[t][r.ip].k ELSE "none">>
 HistUpd(t) == CASE Hist = "off" -> hist [] Hist = "last" -> <<Entry(t)>> [] OTHER -> Append(hist, Entry(t))
 
+SoloK == 120
+\* the solo thread's own steps while it is inside the operation it was frozen in
+ScNext(t) == IF solo = t /\ InOp(t) /\ sc <= SoloK THEN sc + 1 ELSE sc
 Next ==
-  \/ \E t \in Threads : (solo = 0 \/ solo = t) /\ err = "" /\ Step(t) /\ UNCHANGED solo /\ hist' = HistUpd(t)
+  \/ \E t \in Threads : (solo = 0 \/ solo = t) /\ err = "" /\ Step(t) /\ UNCHANGED solo /\ hist' = HistUpd(t) /\ sc' = ScNext(t)
   \/ \E t \in Threads : Freeze(t)
 
 Spec == Init /\ [][Next]_vars
@@ -723,7 +728,7 @@ Spec == Init /\ [][Next]_vars
 \* Every operation of every thread terminates if every thread keeps being scheduled (no deadlock, no livelock of the
 \* design under weak fairness; programs are finite, so a failed exchange means somebody else's succeeded).  Checked by
 \* TLC as a temporal property on the small configurations (MC_live_*); lock-freedom proper is SoloProgress.
-StepT(t) == (solo = 0 \/ solo = t) /\ err = "" /\ Step(t) /\ UNCHANGED solo /\ hist' = HistUpd(t)
+StepT(t) == (solo = 0 \/ solo = t) /\ err = "" /\ Step(t) /\ UNCHANGED solo /\ hist' = HistUpd(t) /\ sc' = ScNext(t)
 FairSpec == Spec /\ \A t \in Threads : WF_vars(StepT(t))
 
 (* ====================================================================== *)
@@ -769,6 +774,9 @@ LoadSteps == \A t \in Threads : (th[t].kind \in {"load", "loadfull"} /\ th[t].us
 
 \* lock-freedom (C09): a frozen world cannot stop the solo thread
 SoloProgress == (solo # 0 /\ InOp(solo) /\ err = "") => ENABLED Step(solo)
+\* ... and it does not spin either: it completes the operation it is in within SoloK own steps (a loop that waits for
+\* somebody else's progress keeps the step enabled, so SoloProgress alone would not notice it)
+SoloBound == sc <= SoloK
 
 TypeOK == /\ \A n \in Nodes : sh.wr[n] >= 0
           /\ sh.nnodes \in 0..MaxNodes
